@@ -2,6 +2,7 @@ package simrt
 
 import (
 	"math"
+	"strings"
 
 	sebufhttp "github.com/SebastienMelki/sebuf/http"
 
@@ -443,4 +444,39 @@ func isFlatten(fd protoreflect.FieldDescriptor) bool {
 	}
 	v, _ := proto.GetExtension(opts, sebufhttp.E_Flatten).(bool)
 	return v
+}
+
+// inflatePayloads makes the response of one call large (a long string in its first plain
+// string field): net/http sends a response that does not fit its 2 KiB buffer in chunked
+// transfer encoding, without a Content-Length. Drawn last so that the rest of a plan is what
+// it was before this existed.
+func inflatePayloads(rt *rapid.T, w *WorldDesc, p *Plan) {
+	if len(p.Ops) == 0 || rapid.IntRange(0, 5).Draw(rt, "inflate") != 0 {
+		return
+	}
+	op := p.Ops[rapid.IntRange(0, len(p.Ops)-1).Draw(rt, "inflate.op")]
+	n := rapid.SampledFrom([]int{2049, 3000, 5000, 20000}).Draw(rt, "inflate.size")
+	if op.App.Kind != "respond" && op.App.Kind != "" {
+		return
+	}
+	_, md := w.Method(op.RPC)
+	if md == nil {
+		return
+	}
+	resp := md.NewResp()
+	if err := proto.Unmarshal(op.RespBin, resp); err != nil {
+		return
+	}
+	if !setFirstString(resp, strings.Repeat("0123456789abcdef", n/16+1)[:n-2]+"é") {
+		return
+	}
+	op.RespBin = mustMarshal(resp)
+	if op.RespJSON != "" {
+		op.RespJSON = jsonOf(resp)
+	}
+	// coarser fragmentation (the response is hundreds of times larger than the others)
+	for i := range op.RespChunks {
+		op.RespChunks[i] *= 97
+	}
+	op.Notes = append(op.Notes, "inflated")
 }
